@@ -18,6 +18,10 @@ func init() {
 	observers["C12.dec"] = obsC12Dec
 }
 
+// number of Normalize calls per case: an iteration order that deviates with probability 1/8 per
+// call (two neighbours in one map bucket) goes unnoticed in 25 calls with probability 4%
+const c12Calls = 25
+
 type c12Decl struct {
 	com, tgt string
 	p        decimal.Decimal
@@ -123,7 +127,7 @@ func c12Render(np price.NormalizedPrices, names []string, reg *commodity.Registr
 }
 
 // input "V|amount|C P T,...": Normalize(V), rendered for every commodity of the input (sorted),
-// Price / Valuate(amount) per commodity; Normalize is called 5 times, "!nondet" when two calls differ
+// Price / Valuate(amount) per commodity; Normalize is called c12Calls times, "!nondet" when two calls differ
 func obsC12Norm(in string) (res string) {
 	defer func() {
 		if r := recover(); r != nil {
@@ -140,7 +144,7 @@ func obsC12Norm(in string) (res string) {
 	names := c12Universe(v, decls)
 	first := ""
 	nondet := false
-	for k := 0; k < 5; k++ {
+	for k := 0; k < c12Calls; k++ {
 		s := c12Render(ps.Normalize(reg.MustGet(v)), names, reg, amount)
 		if k == 0 {
 			first = s
